@@ -37,6 +37,9 @@ namespace c17
    // the latter is a memcpy of symbolic length into the string object, which CBMC's built-in memcpy model does not encode precisely
    inline void fill( std::string& s, const char* pre, unsigned long npre )
    {
+#ifdef C17_RESERVE
+      s.reserve( C17_RESERVE );  // heap buffer instead of the in-object short-string buffer (see props/C17.py)
+#endif
       for( unsigned long i = 0; i < npre; ++i ) {
          s.push_back( pre[ i ] );
       }
@@ -115,6 +118,22 @@ C17_EXPORT void w_c_json( const char* b, unsigned long n, const char* pre, unsig
 C17_EXPORT void w_c_ex( const char* b, unsigned long n, const char* pre, unsigned long npre, unsigned long* out ) { c17::run_action< ex_c >( b, n, pre, npre, out ); }
 C17_EXPORT void w_x( const char* b, unsigned long n, const char* pre, unsigned long npre, unsigned long* out ) { c17::run_action< unescape::unescape_x >( b, n, pre, npre, out ); }
 C17_EXPORT void w_all( const char* b, unsigned long n, const char* pre, unsigned long npre, unsigned long* out ) { c17::run_action< unescape::append_all >( b, n, pre, npre, out ); }
+#endif
+
+#if defined( C17_GROW )
+// append_all beyond the short-string capacity: out[1] size, out[2 + i] byte i (i < 28)
+C17_EXPORT void w_all_long( const char* b, unsigned long n, const char* pre, unsigned long npre, unsigned long* out )
+{
+   std::string s;
+   c17::fill( s, pre, npre );
+   input_t in( b, b + n, "" );
+   const auto m = in.inputerator();
+   in.bump_in_this_line( n );
+   const ainput_t ai( m, in );
+   unescape::append_all::apply( ai, s );
+   out[ 0 ] = 1;
+   c17::copy_out< 28 >( s, out );
+}
 #endif
 
 #if defined( C17_U )
